@@ -83,6 +83,29 @@ static int m_special_len(mrng_t *g, int actual, int wide)
     default: return (int) mb(g, wide >= 2 ? 70000 : 256);
     }
 }
+/* positions inside b[0..n) that look like genuine length prefixes: a 1/2/3-byte big-endian value whose vector ends exactly at a
+   known boundary (end of the message, or the start of an item found further right).  Scanned right to left. */
+typedef struct { int p, w, v; } mlenf_t;
+static int m_find_lenfields(const uint8_t *b, int n, mlenf_t *out, int max)
+{
+    static uint8_t bound[M_CAP + 8];
+    int cnt = 0;
+    if (n <= 0 || n > M_CAP) return 0;
+    memset(bound, 0, (size_t) n + 4); bound[n] = 1;
+    for (int p = n - 1; p >= 0 && cnt < max; p--) {
+        for (int w = 1; w <= 3; w++) {
+            if (p + w > n) continue;
+            int v = 0; for (int i = 0; i < w; i++) v = (v << 8) | b[p + i];
+            int e = p + w + v;
+            if (e <= n && bound[e] && (v > 0 || w == 2)) {
+                out[cnt].p = p; out[cnt].w = w; out[cnt].v = v; cnt++;
+                bound[p] = 1; if (p >= 2) bound[p - 2] = 1;     /* the item may start with a 2-byte type before its length */
+                break;
+            }
+        }
+    }
+    return cnt;
+}
 static const uint8_t m_hstypes[] = { 0, 1, 2, 3, 4, 5, 8, 11, 12, 13, 14, 15, 16, 20, 21, 22, 23, 24, 67, 254 };
 static const uint8_t m_rectypes[] = { 20, 21, 22, 23, 24, 25, 0, 255, 0x80 | 20, 0x80 | 21, 0x80 | 22, 0x80 | 23 };
 
@@ -118,7 +141,8 @@ static int m_hs_edit(const uint8_t *pl, int pn, int ri, int dtls, mrng_t *g, siz
     int mi = (int) mb(g, m_nm); mmsg_t *M = &m_m[mi]; int hh = M->hh;
     int nb = 0;                                   /* new body of record ri in m_tmp */
 #define TPUT(p, n) do { if ((n) > 0 && nb + (n) <= M_CAP) { memcpy(m_tmp + nb, (p), (n)); nb += (n); } } while (0)
-    int op = (int) mb(g, dtls ? 16 : 12);
+    int op = (int) mb(g, dtls ? 19 : 15);
+    if (op >= (dtls ? 16 : 12)) op = 7;          /* length-field lies get a larger share */
     int multi = 0;                                /* the op emits records itself */
     switch (op) {
     case 0: /* lying handshake length */
@@ -147,9 +171,21 @@ static int m_hs_edit(const uint8_t *pl, int pn, int ri, int dtls, mrng_t *g, siz
         if (nl <= M->blen) TPUT(body + M->off + hh, nl);
         else { TPUT(body + M->off + hh, M->blen); for (int i = M->blen; i < nl && nb < M_CAP; i++) m_tmp[nb++] = (uint8_t) (mb(g, 4) ? 0 : mr(g)); }
         TPUT(body + M->off + hh + M->blen, bl - (M->off + hh + M->blen)); break; }
-    case 7: { /* a length-like field inside the body gets a boundary value of what follows it */
+    case 7: { /* a length field inside the body lies: either a field that really is a vector length (found structurally), or any position */
         if (M->blen < 2) return 0;
         TPUT(body, bl);
+        if (mb(g, 4)) {
+            static mlenf_t lf[256]; int nl = m_find_lenfields(body + M->off + hh, M->blen, lf, 256);
+            if (nl > 0) {
+                mlenf_t *f = &lf[mb(g, nl)]; int v;
+                switch (mb(g, 8)) { case 0: v = f->v + 1; break; case 1: v = f->v > 0 ? f->v - 1 : 1; break; case 2: v = f->w == 1 ? 0xff : f->w == 2 ? 0xffff : 0xffffff; break;
+                                   case 3: v = 0; break; case 4: v = f->v + 2 + (int) mb(g, 300); break; case 5: v = f->w == 1 ? 0x80 + (int) mb(g, 0x7f) : 1200 + (int) mb(g, 40000); break;
+                                   case 6: v = f->v * 2 + 1; break; default: v = M->blen - f->p - f->w + 1 + (int) mb(g, 3); }
+                uint8_t *q = m_tmp + M->off + hh + f->p;
+                if (f->w == 1) q[0] = v; else if (f->w == 2) { q[0] = v >> 8; q[1] = v; } else m_set24(q, v);
+                break;
+            }
+        }
         int w = 1 + (int) mb(g, 3), p = (int) mb(g, M->blen), rem; if (p + w > M->blen) { w = 1; p = M->blen - 1; }
         rem = M->blen - p - w;
         int v = mb(g, 3) ? rem + (int) mb(g, 5) - 2 : m_special_len(g, rem, w); if (v < 0) v = 0;
